@@ -114,6 +114,29 @@ def manager_path(l0, a1, b1):
     return F.written_ok_stream(sink.writes, l0)
 
 
+def immediate_path(l0, a1, b1):
+    """the path of single-request downloads to a stream (ImmediatelyWriteIOGetObjectTask):
+    get_immediate_io_write_tasks, the returned tasks run at once; retry cut at different places"""
+    from s3transfer.download import DownloadNonSeekableOutputManager
+    from s3transfer.futures import BoundedExecutor, NonThreadedExecutor, TransferCoordinator
+    env = F.Env()
+    sink = F.StreamSink(env)
+    coord = TransferCoordinator()
+    io = BoundedExecutor(10, 1, executor_cls=NonThreadedExecutor)
+    om = DownloadNonSeekableOutputManager(None, coord, io)
+
+    def deliver(off, n):
+        if n > 0:
+            for t in om.get_immediate_io_write_tasks(sink, F.Blob(off, n), off):
+                t()
+    deliver(0, a1)
+    deliver(0, b1)
+    deliver(b1, l0 - b1)
+    if coord.exception is not None:
+        return 'order: immediate write task failed'
+    return F.written_ok_stream(sink.writes, l0)
+
+
 def step(npend, nxt, o1, n1, o2, n2, off, n):
     """C16.2 inductive step: arbitrary consistent queue state (next offset, <= 2 withheld chunks strictly beyond it,
     disjoint, ascending), one request_writes(off, blob) with arbitrary off >= 0, n >= 1.
@@ -168,6 +191,11 @@ OBLIGATIONS = [
          bounds='1 part, retry with different boundaries, through the output manager and a serial IO executor',
          encodes=['DownloadNonSeekableOutputManager.queue_file_io_task', 'IOStreamingWriteTask', 'DeferQueue'],
          assumptions=['identity-content data', 'S1']),
+    dict(id='C16.1d', impl='immediate_path', params='l0: int, a1: int, b1: int',
+         pre=['1 <= l0', '0 <= a1 <= l0', '0 <= b1 <= l0'], timeout=(60, 300),
+         bounds='1 single-request download, retry with different boundaries, through get_immediate_io_write_tasks',
+         encodes=['DownloadNonSeekableOutputManager.get_immediate_io_write_tasks', 'IOStreamingWriteTask', 'DeferQueue'],
+         assumptions=['identity-content data', 'S1']),
     dict(id='C16.2', impl='step', params='nxt: int, o1: int, n1: int, o2: int, n2: int, off: int, n: int',
          cases=[(0,), (1,), (2,)], layout=['_writes', '_pending_offsets', '_next_offset'],
          pre=['0 <= nxt', 'nxt < o1 and 1 <= n1', 'o1 + n1 <= o2 and 1 <= n2', '0 <= off and 1 <= n'],
@@ -192,6 +220,22 @@ def _c023():
 
 
 OBLIGATIONS.append(_c023())
+
+
+def stream_faulted(kind, mode, nfaults, short, size, thr, chunk, io, a, b, f1, f2):
+    """C16.5: the single-request download to a stream end-to-end under C02's fault sequences (one retryable stream
+    fault after a symbolic number of bytes, one symbolic short read)"""
+    from harness import c02
+    return c02.download(kind, mode, nfaults, short, size, thr, chunk, io, a, b, f1, f2)
+
+
+def _c021sf():
+    from harness import c02
+    o = [x for x in c02.OBLIGATIONS if x['id'] == 'C02.1sf'][0]
+    return dict(o, id='C16.5', impl='stream_faulted', cases=[c for c in o['cases'] if 'stream' in c])
+
+
+OBLIGATIONS.append(_c021sf())
 
 from harness.codownload import OB_DL, protocol_fixed as co_download_protocol  # noqa: E402
 OBLIGATIONS += [dict(OB_DL, id='C16.4', impl='co_download_protocol', cases=[('stream', 3, -1), ('stream', 4, -1)])]
